@@ -333,7 +333,9 @@ class RealComp:
             elif op == "unregister":
                 bip.unregister()
             elif op in ("renew", "expire"):
-                self.vt.now = ev["now"] / 1e6 + 2e-7     # float of the deadline may sit an ulp above
+                task = bip if op == "renew" else bip._registration_timeout_task
+                # the float of the armed deadline may sit an ulp off the microsecond value
+                self.vt.now = max(ev["now"] / 1e6, task.taskTime if task.isScheduled else 0.0)
                 self.vt.run(until=self.vt.now)
                 for k, w in self.vt.errors:
                     CAP.append(["raised", k])
@@ -406,6 +408,8 @@ def gen_component(rng, kind, vt, n_events):
     """runs the real component while generating; returns (cfg, events, impl replies)"""
     addrs = pool(rng)
     cfg = {"op": "reset", "kind": kind}
+    if kind == "foreign":
+        cfg["t0"] = us(START)       # the constructor schedules _registration_expired at once
     if kind == "bbmd":
         cfg["addr"] = addrs[0]
         cfg["upper"] = rng.random() < 0.8
@@ -546,11 +550,14 @@ def comp_oracle(ctx, kind, cfg, events, replies):
                 acks = [o for o in r["out"] if o[0] == "send" and o[2][0] == "rfdtack"]
                 if len(acks) != 1 or acks[0][2][1] != prev or acks[0][1] != ["s"] + ev["src"]:
                     ctx.fail("read-fdt", case, "Read-FDT reply %r does not show the table %r" % (acks, prev))
-            # forwarding never goes back to the sender of a Distribute-Broadcast and never twice to one address
-            sends = [tuple(o[1]) for o in r["out"] if o[0] == "send" and o[2][0] == "fwd" and o[1][0] == "s"]
-            if ev["op"] == "up" and ev["msg"][0] == "dist" and ("s",) + tuple(ev["src"]) in sends and \
-                    tuple(ev["src"]) not in [tuple(e[:2]) for e in st[2]]:
-                ctx.fail("echo", case, "Distribute-Broadcast forwarded back to its sender")
+            # a Distribute-Broadcast is never forwarded back to its sender through the FDT
+            if ev["op"] == "up" and ev["msg"][0] == "dist":
+                me = tuple(st[1])
+                via_bdt = sum(1 for e in st[2] if tuple(e[:2]) != me and
+                              ((e[0] | (FULL - e[2] % (FULL + 1))) & FULL, e[1]) == tuple(ev["src"]))
+                back = sum(1 for o in r["out"] if o[0] == "send" and o[2][0] == "fwd" and o[1] == ["s"] + ev["src"])
+                if back != via_bdt:
+                    ctx.fail("echo", case, "Distribute-Broadcast forwarded back to its sender %d times (BDT explains %d)" % (back, via_bdt))
         if kind == "foreign":
             # renewal is armed no later than TTL after it fired; expiry tracking TTL+30 after the ack
             if ev["op"] == "renew" and st[3] is not None and st[4] is not None:
@@ -617,7 +624,7 @@ def gen_world(rng, quick=True):
         else:
             n = rng.choice(nets)
         a = [net_ip(n["id"]) + 100 + j, PORT]
-        n["nodes"].append({"addr": a, "kind": "foreign"})
+        n["nodes"].append({"addr": a, "kind": "foreign", "t0": us(START)})
         fds.append(a)
     rng.shuffle(nets) if rng.random() < 0.3 else None
     for n in nets:
@@ -901,6 +908,7 @@ class Spec:
             if r:
                 self.arrivals[(r["bbmd"], f)].append((t, "reg", 0))
         elif op == "sap" and ev["msg"][0] == "reg":
+            self.canonical = False       # an ordinary node posing as a foreign device: outside bbmd_once
             self.arrivals[(tuple(ev["to"]), tuple(ev["a"]))].append((t, "reg", ev["msg"][1]))
         elif op == "sap" and ev["msg"][0] == "del":
             b, x = tuple(ev["to"]), tuple(ev["msg"][1:3])
@@ -1042,9 +1050,12 @@ def world_oracle(ctx, scn, real):
                     ctx.fail("wrong-destination", case, "broadcast handed up with destination %r" % (u[3],))
                 if u[4] != ev["data"]:
                     ctx.fail("wrong-payload", case, "payload changed: %r" % (u[4],))
-            if got[o_addr]:
-                ctx.fail("echo", case, "broadcast handed back to its originator %r (%d times)" % (o_addr, got[o_addr]))
             want, skip = sp.expected(o_addr, t)
+            # (an originator hears itself only where the tables send its own broadcast back at it: a
+            #  foreign device inside a subnet its BBMD broadcasts to, a BDT entry naming an ordinary
+            #  node — both outside the hypotheses of bbmd_once; the characterisation predicts them)
+            if got[o_addr] and not want[o_addr] and not skip:
+                ctx.fail("echo", case, "broadcast handed back to its originator %r (%d times)" % (o_addr, got[o_addr]))
             # nodes outside the hypotheses: a foreign device on the subnet of its own BBMD
             unjudged = set()
             for f, rr in sp.reg.items():
@@ -1063,6 +1074,8 @@ def world_oracle(ctx, scn, real):
             if sp.canonical and not sp.detached and not skip:
                 origin_ok = sp.kind[o_addr] != "foreign" or (
                     sp.reg.get(o_addr, {}).get("acked") and sp.is_bbmd(sp.reg[o_addr]["bbmd"]))
+                if origin_ok and o_addr not in unjudged and got[o_addr]:
+                    ctx.fail("echo", case, "full-mesh layout: broadcast handed back to its originator %r" % (o_addr,))
                 for a, k in sp.kind.items():
                     if a == o_addr or a in unjudged or not origin_ok:
                         continue
